@@ -493,6 +493,53 @@ class C07(core.Check):
                     d["p"] = frs(vadd(unfrs(d["p"]), v))
         return {"kind": "asm", "locs": [frs(l) for l in locs], "ops": [op1, op2], "alias": {"v": frs(v)}}
 
+    BUILD_DATA = {
+        "arc": lambda tag: {"k": "arc", "tag": tag, "p": ["1/2", "-1/4", "1/8"]},
+        "spline": lambda tag: {"k": "spline", "tag": tag, "pts": [["1/4", "-1/8", "0"], ["1/2", "-1/4", "1/16"]]},
+        "project": lambda tag: {"k": "project", "tag": tag, "labels": ["g1"]},
+    }
+
+    def _build_case(self, rng: random.Random) -> dict:
+        """the entry points that put edge data on faces / operations: Face(points, edges) in its forms, add_edge,
+        remove_edges, add_side_edge — a history of calls on one loft, indices mostly valid, sometimes just outside"""
+        tag = [0]
+
+        def datum(none_ok=True):
+            if none_ok and rng.random() < 0.3:
+                return None
+            tag[0] += 1
+            return self.BUILD_DATA[rng.choice(sorted(self.BUILD_DATA))](tag[0])
+
+        def init():
+            r = rng.random()
+            if r < 0.3:
+                return None
+            n = 4 if r < 0.92 else rng.choice([0, 3, 5])
+            return [datum() for _ in range(n)]
+
+        def index():
+            return rng.randrange(4) if rng.random() < 0.93 else rng.choice([-1, 4, -4, 7])
+
+        calls = []
+        for _ in range(rng.randint(0, 6)):
+            r = rng.random()
+            if r < 0.4:
+                calls.append(["ae", rng.choice("bt"), index(), datum()])
+            elif r < 0.65:
+                cs = rng.choice(["noarg", "none", [], [index()], [index(), index()]])
+                calls.append(["re", rng.choice("bt"), cs])
+            else:
+                calls.append(["as", index(), datum(False)])
+        return {"kind": "build", "binit": init(), "tinit": init(), "calls": calls}
+
+    def _series_case(self, rng: random.Random) -> dict:
+        """Operation.from_series: 2 to 5 jittered squares stacked in z"""
+        n = rng.choice([2, 3, 3, 4, 5])
+        faces = []
+        for k in range(n):
+            faces.append([frs([Fr(x) + Fr(rng.randint(-2, 2), 16), Fr(y) + Fr(rng.randint(-2, 2), 16), Fr(k) + Fr(rng.randint(-2, 2), 16)]) for x, y in ((0, 0), (1, 0), (1, 1), (0, 1))])
+        return {"kind": "series", "faces": faces}
+
     def _curvemove_case(self, rng: random.Random, s_: Optional[int] = None) -> dict:
         """one loft with a curve-snapped edge; after the first output one or two of its end vertices are moved
         along the curve (Vertex.move_to) and the output is read again, without re-assembly"""
@@ -553,6 +600,8 @@ class C07(core.Check):
         cases += [self._revolve_case(rng) for _ in range(n // 8)]
         cases += [self._curvemove_case(rng) for _ in range(n // 16)]
         cases += [self._major_arc_case(rng) for _ in range(n // 16)]
+        cases += [self._build_case(rng) for _ in range(n // 4)]
+        cases += [self._series_case(rng) for _ in range(n // 16)]
         cases += [self._alias_case(rng) for _ in range(n // 16)]
         # angle arcs of either sign on every position, as given and on an inverted face, once assembled again
         for sgn in (-1, 1):
@@ -681,6 +730,47 @@ class C07(core.Check):
             except Exception as e:
                 return {"reject": type(e).__name__}
             return {"accepted": True}
+        if case["kind"] == "build":
+            sq = [[0, 0, 0], [1, 0, 0], [1, 1, 0], [0, 1, 0]]
+            mk = lambda d: self._make(cb, d, objs)
+            try:
+                faces = []
+                for init, z in ((case["binit"], 0), (case["tinit"], 1)):
+                    pts = [[x, y, z] for x, y, _ in sq]
+                    faces.append(cb.Face(pts) if init is None else cb.Face(pts, [mk(d) for d in init]))
+                loft = cb.Loft(faces[0], faces[1])
+                for c in case["calls"]:
+                    face = loft.top_face if c[1] == "t" else loft.bottom_face
+                    if c[0] == "ae":
+                        face.add_edge(c[2], mk(c[3]))
+                    elif c[0] == "re":
+                        if c[2] == "noarg":
+                            face.remove_edges()
+                        elif c[2] == "none":
+                            face.remove_edges(None)
+                        else:
+                            face.remove_edges(list(c[2]))
+                    else:
+                        loft.add_side_edge(c[1], mk(c[2]))
+            except Exception as e:
+                return {"reject": type(e).__name__}
+            data = list(loft.bottom_face.edges) + list(loft.top_face.edges) + list(loft.side_edges)
+            return {"slots": [f"{d.kind}:{objs.get(id(d), (0, None))[0]}" for d in data]}
+        if case["kind"] == "series":
+            faces = [cb.Face([fl(unfrs(p)) for p in f]) for f in case["faces"]]
+            loft = cb.Loft.from_series(faces)
+            side = []
+            for d in loft.side_edges:
+                if d.kind == "arc":
+                    side.append("arc:" + ",".join(core.rat(float(x)) for x in d.point.position) + ":-")
+                elif d.kind == "spline":
+                    side.append("spline:-:" + "_".join(",".join(core.rat(float(x)) for x in q) for q in d.curve.array.points))
+                else:
+                    side.append(f"{d.kind}:-:-")
+            mesh = cb.Mesh()
+            mesh.add(loft)
+            mesh.assemble()
+            return {"side": side, "P": [[float(x) for x in v.position] for v in mesh.vertex_list.vertices], "text": mesh.edge_list.description}
         if case["kind"] == "curvemove":
             op = case["op"]
             faces = []
@@ -899,6 +989,22 @@ class C07(core.Check):
             return []  # oracle only: the operation is a Loft with four Angle side edges (covered by the asm cases)
         if case["kind"] == "curvemove":
             return []  # oracle only: the payload of a curve-snapped edge is opaque to the model
+        if case["kind"] == "build":
+            dat = lambda d: "0" if d is None else self._datum_req(d, None)
+            ini = lambda i: "N" if i is None else (";".join(dat(d) for d in i) if i else "E")
+            calls = []
+            for c in case["calls"]:
+                if c[0] == "ae":
+                    calls.append(f"ae:{c[1]}:{c[2]}:{dat(c[3])}")
+                elif c[0] == "re":
+                    cs = "A" if c[2] in ("noarg", "none") else ("E" if not c[2] else ".".join(map(str, c[2])))
+                    calls.append(f"re:{c[1]}:{cs}")
+                else:
+                    calls.append(f"as:{c[1]}:{dat(c[2])}")
+            return [f"c07.build {ini(case['binit'])} {ini(case['tinit'])} " + ("+".join(calls) or "-")]
+        if case["kind"] == "series":
+            mids = case["faces"][1:-1]
+            return ["c07.series " + ("|".join(";".join(self._v3(p) for p in f) for f in mids) or "-")]
         if case["kind"] == "reject":
             ltab = "0/1,0/1,0/1;1/1,0/1,0/1;1/1,1/1,0/1;0/1,1/1,0/1"
             ln = "line~0~-~0/1~-"
@@ -931,6 +1037,12 @@ class C07(core.Check):
 
     def compare(self, case: dict, impl: Any, model: List[str]) -> Optional[str]:
         ans = model[0]
+        if case["kind"] == "build":
+            want = "reject" if "reject" in impl else ";".join(impl["slots"])
+            return None if ans == want else f"entry points {case['calls']}: implementation {impl}, model {ans}"
+        if case["kind"] == "series":
+            want = ";".join(impl["side"])
+            return None if ans == want else f"from_series: implementation {want}, model {ans}"
         if case["kind"] == "reject":
             if "reject" in impl and ans == "bad-op":
                 return None
@@ -1042,6 +1154,10 @@ class C07(core.Check):
             return self._oracle_revolve(case, impl)
         if case["kind"] == "curvemove":
             return self._oracle_curvemove(case, impl)
+        if case["kind"] == "build":
+            return self._oracle_build(case, impl)
+        if case["kind"] == "series":
+            return self._oracle_series(case, impl)
         found = self._oracle_stage(case, impl)
         for n, stage in enumerate(impl.get("later", [])):
             for v in self._oracle_stage(case, stage):
@@ -1233,6 +1349,87 @@ class C07(core.Check):
             return ("side" if side < 0 else "data", f"arc {w['v1']} {w['v2']} passes through {triples[0]}, the described arc through {M}" + (" (other side of the chord)" if side < 0 else ""))
         return None
 
+    def _oracle_build(self, case: dict, impl: Any) -> List[dict]:
+        """every slot holds the datum the user put there last (a line when it was never set, set to None, or
+        removed); a history with valid indices only is not refused. (Which invalid calls must be refused is C20's
+        subject: nothing is said about them here.)"""
+        slots = {}
+        ok = True
+        for w, init in (("b", case["binit"]), ("t", case["tinit"])):
+            if init is not None:
+                if len(init) != 4:
+                    ok = False
+                    break
+                for i, d in enumerate(init):
+                    slots[(w, i)] = d
+        key = lambda d: "line:0" if d is None else f"{d['k']}:{d['tag']}"
+        if ok:
+            for c in case["calls"]:
+                if c[0] == "ae":
+                    if not 0 <= c[2] <= 3:
+                        ok = False
+                        break
+                    slots[(c[1], c[2])] = c[3]
+                elif c[0] == "re":
+                    cs = range(4) if c[2] in ("noarg", "none") else c[2]
+                    if any(not 0 <= i <= 3 for i in cs):
+                        ok = False
+                        break
+                    for i in cs:
+                        slots[(c[1], i)] = None
+                else:
+                    if not 0 <= c[1] <= 3:
+                        ok = False
+                        break
+                    slots[("s", c[1])] = c[2]
+        if not ok:
+            return []
+        if "reject" in impl:
+            return [{"site": "entry-points:valid-history-refused", "what": f"{case} -> {impl}"}]
+        want = [key(slots.get((w, i))) for w in "bts" for i in range(4)]
+        if impl["slots"] != want:
+            bad = [f"{'bts'[n // 4]}{n % 4}" for n, (a, b) in enumerate(zip(impl["slots"], want)) if a != b]
+            return [{"site": "entry-points:slot-does-not-hold-the-last-datum", "what": f"slots {bad} after {case['calls']}", "observed": impl["slots"], "expected": want}]
+        return []
+
+    def _oracle_series(self, case: dict, impl: Any) -> List[dict]:
+        """from_series: an arc through the single face in between / a spline through the faces in between, written
+        from the bottom vertex to the top vertex with its points in the order of the faces"""
+        out = []
+        faces = [[fl(unfrs(p)) for p in f] for f in case["faces"]]
+        mids = faces[1:-1]
+        entries = []
+        for line in impl["text"].splitlines()[2:]:
+            m = re.fullmatch(r"(\w+) (\d+) (\d+) \((.*)\)", line.strip())
+            if m:
+                nums = [float(x) for x in re.findall(r"-?\d+\.\d+(?:e-?\d+)?|-?\d+", m.group(4))]
+                entries.append((m.group(1), int(m.group(2)), int(m.group(3)), [nums[i : i + 3] for i in range(0, len(nums), 3)]))
+        if not mids:
+            return [] if not entries else [{"site": "Operation.from_series:entries-for-two-faces", "what": impl["text"]}]
+        close = lambda p, q: all(abs(a - b) <= 2e-8 for a, b in zip(p, q))
+        # an arc whose point is collinear with its two ends is (rightly) omitted; the jitter is in 1/16 steps, so the
+        # cross product of the arms is exactly 0 or at least 1/32
+        expected = 0
+        for i in range(4):
+            if len(mids) > 1:
+                expected += 1
+            else:
+                a1, a2 = vsub(faces[0][i], mids[0][i]), vsub(faces[-1][i], mids[0][i])
+                expected += vnorm(vcross(a1, a2)) > 1e-3
+        if len(entries) != expected:
+            return [{"site": "Operation.from_series:side-edges-missing", "what": f"{len(entries)} entries, {expected} non-collinear side curves: " + impl["text"]}]
+        for kind, a, b, pts in entries:
+            i = next((i for i in range(4) if close(impl["P"][a], faces[0][i]) or close(impl["P"][a], faces[-1][i])), None)
+            if i is None:
+                out.append({"site": "Operation.from_series:entry-off-the-corners", "what": f"{kind} {a} {b}"})
+                continue
+            want = [m[i] for m in mids]
+            if close(impl["P"][a], faces[-1][i]):
+                want = want[::-1]
+            if kind != ("arc" if len(mids) == 1 else "spline") or len(pts) != len(want) or not all(close(p, q) for p, q in zip(pts, want)):
+                out.append({"site": "Operation.from_series:points-not-in-face-order", "what": f"{kind} {a} {b} lists {pts}, the faces in between give {want}", "observed": pts, "expected": want})
+        return out
+
     def _oracle_curvemove(self, case: dict, impl: Any) -> List[dict]:
         """at every output the points of the curve-snapped entry run, evenly in the parameter, between the *current*
         positions of the entry's two vertices (in that order) and the wires on that pair report that piece's length"""
@@ -1409,6 +1606,11 @@ class C07(core.Check):
             return "ill-formed:" + (impl.get("reject", "accepted") if isinstance(impl, dict) else "?")
         if case["kind"] == "curvemove":
             return "curvemove:" + "+".join(m[0] for m in case["moves"])
+        if case["kind"] == "build":
+            forms = "+".join(sorted({("noedges" if i is None else f"edges{len(i)}") for i in (case["binit"], case["tinit"])}))
+            return "build:" + forms + ":" + ("+".join(sorted({c[0] for c in case["calls"]})) or "nocalls") + (":refused" if isinstance(impl, dict) and "reject" in impl else "")
+        if case["kind"] == "series":
+            return f"series:{len(case['faces'])}faces"
         if case["kind"] == "revolve":
             return "revolve:" + ("negative" if Fr(case["angle"]) < 0 else "positive") + (":" + "+".join(t[0] for t in case["post"]) if case.get("post") else "") + (":reassembled" if case.get("history") else "")
         if case["kind"] == "face":
